@@ -299,7 +299,7 @@ pub fn histories(cfg: &CfgSpec, tier: &str) -> Vec<Case> {
     add(
         "handover",
         vec![
-            ok(Op::TransferOwnership { sender: P::Admin }),
+            ok(Op::TransferOwnership { sender: P::Admin, to: P::Nominee }),
             fails(Op::AcceptOwnership { sender: P::Nominee }),
             H::Advance(7 * DAY - 1),
             fails(Op::AcceptOwnership { sender: P::Nominee }),
@@ -308,7 +308,7 @@ pub fn histories(cfg: &CfgSpec, tier: &str) -> Vec<Case> {
             ok(Op::AcceptOwnership { sender: P::Nominee }),
             fails(Op::AcceptOwnership { sender: P::Nominee }),
             fails(Op::Resume { sender: P::Admin, consistent: true }),
-            fails(Op::TransferOwnership { sender: P::Admin }),
+            fails(Op::TransferOwnership { sender: P::Admin, to: P::Nominee }),
             fails(Op::Breaker { sender: P::Admin }),
         ],
     );
@@ -316,16 +316,34 @@ pub fn histories(cfg: &CfgSpec, tier: &str) -> Vec<Case> {
     add(
         "renominate",
         vec![
-            ok(Op::TransferOwnership { sender: P::Admin }),
+            ok(Op::TransferOwnership { sender: P::Admin, to: P::Nominee }),
             H::Advance(7 * DAY),
             ok(Op::RevokeOwnership { sender: P::Admin }),
             fails(Op::AcceptOwnership { sender: P::Nominee }),
-            ok(Op::TransferOwnership { sender: P::Admin }),
+            ok(Op::TransferOwnership { sender: P::Admin, to: P::Nominee }),
             fails(Op::AcceptOwnership { sender: P::Nominee }),
             H::Advance(7 * DAY),
             ok(Op::AcceptOwnership { sender: P::Nominee }),
         ],
     );
+    // a newer nomination without a revocation in between replaces the older one (also when it names the admin itself)
+    for (name, second) in [("own-renominate-other", P::U(0)), ("own-renominate-self", P::Admin), ("own-renominate-same", P::Nominee)] {
+        add(
+            name,
+            vec![
+                ok(Op::TransferOwnership { sender: P::Admin, to: P::Nominee }),
+                H::Advance(3 * DAY),
+                ok(Op::TransferOwnership { sender: P::Admin, to: second.clone() }),
+                H::Advance(4 * DAY),
+                fails(Op::AcceptOwnership { sender: P::Nominee }),
+                H::Advance(3 * DAY),
+                H::Try(Op::AcceptOwnership { sender: P::Nominee }),
+                H::Try(Op::AcceptOwnership { sender: second.clone() }),
+                H::Try(Op::TransferOwnership { sender: P::Admin, to: P::U(1) }),
+                H::Try(Op::Breaker { sender: P::Admin }),
+            ],
+        );
+    }
     // reconfiguration of channel, staker and collector: the authenticated hook accounts follow the current configuration
     add(
         "reconfig",
